@@ -122,7 +122,22 @@ class Gen:
             if v.divisor:
                 v.values = [r.choice([1, 2, 4, -1, -2, 1]) for _ in range(n)]
             else:
-                v.values = [r.range(-4, 4) for _ in range(n)]
+                # value class of the variable: mixed signs, one sign only (folds whose function has no
+                # neutral element 0), constant (ties), zero
+                cls = r.choice(["mixed"] * 6 + ["neg", "neg", "pos", "pos", "const", "zero"])
+                if cls == "neg":
+                    v.values = [-r.range(1, 4) for _ in range(n)]
+                elif cls == "pos":
+                    v.values = [r.range(1, 4) for _ in range(n)]
+                elif cls == "const":
+                    c = r.choice([-3, -1, 2, 4])
+                    v.values = [c] * n
+                elif cls == "zero":
+                    v.values = [0] * n
+                else:
+                    v.values = [r.range(-4, 4) for _ in range(n)]
+                if self.ctx is not None:
+                    self.ctx.hist("variable_value_class", cls)
             if v.kind == "v":
                 ops.append("vec " + " ".join(map(str, [n] + v.values)))
             else:
@@ -323,7 +338,13 @@ class Gen:
             kcls.append(self.K("cmat"))
         if op == "vm":
             kcls = [kids[1].cls, kids[0].cls]
-        cls = self.K(kname, *kcls)
+        if op in ("trimm", "trimv"):
+            # prod(to_triangular(A), .): only containers / dense proxies can be viewed as triangular
+            if kids[0].cls != DENSE:
+                raise Unsupported("to_triangular of a non-dense expression")
+            cls = (op,)
+        else:
+            cls = self.K(kname, *kcls)
         reads = set()
         for k in kids:
             reads |= k.reads
@@ -415,6 +436,53 @@ class Gen:
             raise Unsupported("max/min fold over a sparse-iterated expression (F19)")
         return E("V", n, f"({which} {m.txt})", cpp, orc, m.bound, m.dexp, m.reads, cls, False, None, False, m.depth + 1,
                  m.ops + (which,))
+
+    FOLD_REDS = ["sum", "max", "min", "norm_1", "norm_sqr", "norm_inf"]
+
+    def mk_fold(self, red, rows, m):
+        """red(as_rows(M)) / red(as_columns(M)) for the six row-wise reductions of matrix_expression.hpp"""
+        n, k = (m.shape[0], m.shape[1]) if rows else (m.shape[1], m.shape[0])
+        if k == 0 and red in ("max", "min", "norm_inf"):
+            raise Unsupported("max/min of empty rows is undefined")
+        if self.r is not None and red in ("max", "min", "norm_inf") and any(o in m.ops for o in ("diagm", "unit", "sparse")):
+            raise Unsupported("max/min fold over a sparse-iterated expression (F19)")
+        inner = m.cls if red in ("sum", "max", "min") else self.K("mun", m.cls)
+        cls = self.K("sumrows" if rows else "sumcols", inner)
+        d = "rows" if rows else "cols"
+        cpp = f"{red}({'as_rows' if rows else 'as_columns'}({m.cpp}))"
+        orc = f"o_fold(R_{red.upper().replace('_', '')},{'true' if rows else 'false'},{m.orc})"
+        bound, dexp = m.bound, m.dexp
+        if red in ("sum", "norm_1"):
+            bound = max(1, k) * m.bound
+        elif red == "norm_sqr":
+            bound, dexp = max(1, k) * m.bound * m.bound, 2 * m.dexp
+        return E("V", n, f"(fold {red} {d} {m.txt})", cpp, orc, bound, dexp, m.reads, cls, False, None, False, m.depth + 1,
+                 m.ops + (f"fold_{red}_{d}",))
+
+    TRI = {"lower": (False, False), "upper": (True, False), "unit_lower": (False, True), "unit_upper": (True, True)}
+
+    def mk_trimm(self, kind, a, b):
+        """triangular_prod<kind>(A, B) = prod(to_triangular(A, kind), B)   (kernels::trmm)"""
+        up, un = self.TRI[kind]
+        if a.shape[0] != a.shape[1]:
+            raise Unsupported("triangular matrix must be square")
+        k = a.shape[1]
+        e = self.node("M", (a.shape[0], b.shape[1]), "trimm", f"(mm (tri {kind} {a.txt}) {b.txt})",
+                      f"triangular_prod<{kind}>({a.cpp},{b.cpp})",
+                      f"o_mm(o_tri({'true' if up else 'false'},{'true' if un else 'false'},{a.orc}),{b.orc})",
+                      max(1, k) * max(1, a.bound) * b.bound, a.dexp + b.dexp, [a, b], elementwise=False)
+        return e
+
+    def mk_trimv(self, kind, a, v):
+        """triangular_prod<kind>(A, v)   (kernels::trmv)"""
+        up, un = self.TRI[kind]
+        if a.shape[0] != a.shape[1]:
+            raise Unsupported("triangular matrix must be square")
+        k = a.shape[1]
+        return self.node("V", a.shape[0], "trimv", f"(mv (tri {kind} {a.txt}) {v.txt})",
+                         f"triangular_prod<{kind}>({a.cpp},{v.cpp})",
+                         f"o_mv(o_tri({'true' if up else 'false'},{'true' if un else 'false'},{a.orc}),{v.orc})",
+                         max(1, k) * max(1, a.bound) * v.bound, a.dexp + v.dexp, [a, v], elementwise=False)
 
     def mk_concat(self, a, b):
         bd, dx = self._maxb(a, b)
@@ -549,14 +617,16 @@ class Gen:
             m = self.gen_m(k, n, d)
             return self.mk_vm(self.gen_v(k, d), m)
         k = self.dim()
-        if x < 94:
-            return self.mk_sumrows(self.gen_m(n, k, d))
-        if x < 97:
-            return self.mk_sumcols(self.gen_m(k, n, d))
-        k = max(k, 1)
-        if x < 99:
-            return self.mk_foldrows("maxrows", self.gen_m(n, k, d))
-        return self.mk_foldrows("mincols", self.gen_m(k, n, d))
+        if x < 92 and n > 0 and r.chance(1, 2):
+            # triangular product (trmv)
+            a = self.place_m(n, n)
+            if a is not None:
+                return self.mk_trimv(r.choice(list(self.TRI)), a, self.gen_v(n, d))
+        # row-wise reductions: all six, over rows and over columns
+        red, rows = r.choice(self.FOLD_REDS), r.chance(1, 2)
+        if red in ("max", "min", "norm_inf"):
+            k = max(k, 1)
+        return self.mk_fold(red, rows, self.gen_m(n, k, d) if rows else self.gen_m(k, n, d))
 
     def un(self, kind, f, a):
         pre = "" if kind == "V" else "m"
@@ -639,6 +709,10 @@ class Gen:
             return self.mk_outer(self.gen_v(n1, d), self.gen_v(n2, d))
         if x < 70:
             k = self.dim()
+            if x >= 67 and n1 > 0:
+                a = self.place_m(n1, n1)       # triangular product (trmm)
+                if a is not None:
+                    return self.mk_trimm(r.choice(list(self.TRI)), a, self.gen_m(n1, n2, d))
             return self.mk_mm(self.gen_m(n1, k, d), self.gen_m(k, n2, d))
         if x < 76:
             return self.mk_repeat(self.gen_v(n2, d), n1)
@@ -786,6 +860,10 @@ class Gen:
                 return None
         if r.chance(1, 12):
             return self.scalar_statement(k)
+        if r.chance(1, 9):
+            st = self.alias_statement(k)
+            if st is not None:
+                return st
         t = self.target()
         base = [v for v in self.vars if v.name in t.reads][0]
         form = r.choice(self.FORMS + ["set", "plus"])
@@ -828,6 +906,53 @@ class Gen:
         fname = ("na_" if noalias else "") + form
         return self.render_statement(k, fname, t, e)
 
+    def same_storage_place(self, base, shape):
+        """another dense proxy of the given shape over the variable `base` (or None)"""
+        saved = self.vars
+        self.vars = [base]
+        try:
+            return self.place_v(shape) if not isinstance(shape, tuple) else self.place_m(shape[0], shape[1])
+        finally:
+            self.vars = saved
+
+    def alias_statement(self, k):
+        """target and right-hand side are two (usually different) proxies of ONE variable: overlapping
+        windows, crossing lines, transposes; bare or wrapped in an element-wise expression"""
+        r = self.r
+        t = self.target()
+        base = [v for v in self.vars if v.name in t.reads][0]
+        try:
+            p = self.same_storage_place(base, t.shape)
+            if p is None:
+                return None
+            kind = t.kind
+            how = r.below(6)
+            if how <= 2:
+                e = p
+            elif how == 3:
+                e = self.mk_smul(r.choice([2, -1, 3]), p)
+            elif how == 4:
+                q = self.same_storage_place(base, t.shape) or p
+                e = self.mk_sub(p, q) if r.chance(1, 2) else self.bin(kind, r.choice(["max", "min"]), p, q)
+            else:
+                e = self.un(kind, r.choice(["abs", "neg"]), p)
+        except Unsupported:
+            return None
+        form = r.choice(["set", "set", "plus", "minus", "times"])
+        tb, td = base.bound, base.dexp
+        if form == "set":
+            nb, nd = max(tb << max(0, e.dexp - td), e.bound << max(0, td - e.dexp)), max(td, e.dexp)
+        elif form in ("plus", "minus"):
+            nb, nd = (tb << max(0, e.dexp - td)) + (e.bound << max(0, td - e.dexp)), max(td, e.dexp)
+        else:
+            nb, nd = tb * e.bound, td + e.dexp
+        if max(1, nb).bit_length() + nd > MAXBITS or e.bits() > MAXBITS:
+            return None
+        base.bound, base.dexp = nb, nd
+        if self.ctx is not None:
+            self.ctx.count("alias_pair_statements")
+        return self.render_statement(k, form, t, e)
+
     def scalar_statement(self, k):
         """x *= t / x /= t with a scalar t (kernels::assign<multiply|divide>(x, t), no temporary)"""
         r = self.r
@@ -861,7 +986,7 @@ class Gen:
         return f"stmt {k} {text}", src, info
 
     REDS_V = ["sum", "max", "min", "norm_1", "norm_sqr", "norm_inf", "inner_prod"]
-    REDS_M = ["msum", "mmax", "mmin", "trace"]
+    REDS_M = ["msum", "mmax", "mmin", "trace", "mnorm_1", "mnorm_inf", "frobenius_prod"]
 
     def reduction(self, k):
         r = self.r
@@ -881,9 +1006,11 @@ class Gen:
             n1, n2 = self.dim(), self.dim()
             if kind == "trace":
                 n2 = n1
-            if kind in ("mmax", "mmin") and n1 * n2 == 0:
+            if kind in ("mmax", "mmin", "mnorm_1", "mnorm_inf") and n1 * n2 == 0:
                 kind = "msum"
             args = [self.gen_m(n1, n2, depth)]
+            if kind == "frobenius_prod":
+                args.append(self.gen_m(n1, n2, depth))
             if kind == "trace":
                 try:
                     self.K("diag", args[0].cls)
@@ -893,12 +1020,19 @@ class Gen:
 
     def render_reduction(self, k, kind, args):
         a = args[0]
-        if kind in ("max", "min", "norm_inf", "mmax", "mmin") and \
+        if kind in ("max", "min", "norm_inf", "mmax", "mmin", "mnorm_1", "mnorm_inf") and \
                 any(o in a.ops for o in ("diagm", "unit", "sparse")) and self.r is not None:
             # F19 (known, no patch): max/min folds over sparse-iterated expressions ignore the implicit zeros;
             # kept in the corpus, not generated
             kind = "sum" if a.kind == "V" else "msum"
-        if kind == "inner_prod":
+        if kind == "frobenius_prod":
+            b = args[1]
+            n1, n2 = a.shape
+            text = f"frobenius_prod {a.txt} {b.txt}"
+            cpp = f"frobenius_prod({a.cpp},{b.cpp})"; orc = f"o_frob({a.orc},{b.orc})"
+            bits = (max(1, n1 * n2) * a.bound * b.bound).bit_length() + a.dexp + b.dexp
+            ops = a.ops + b.ops
+        elif kind == "inner_prod":
             b = args[1]
             n = a.shape
             text = f"inner_prod {a.txt} {b.txt}"
@@ -917,9 +1051,10 @@ class Gen:
         else:
             n1, n2 = a.shape
             text = f"{kind} {a.txt}"
-            cpp = {"msum": f"sum({a.cpp})", "mmax": f"max({a.cpp})", "mmin": f"min({a.cpp})", "trace": f"trace({a.cpp})"}[kind]
+            cpp = {"msum": f"sum({a.cpp})", "mmax": f"max({a.cpp})", "mmin": f"min({a.cpp})", "trace": f"trace({a.cpp})",
+                   "mnorm_1": f"norm_1({a.cpp})", "mnorm_inf": f"norm_inf({a.cpp})"}[kind]
             orc = {"msum": f"o_sum({a.orc}.x)", "mmax": f"o_max({a.orc}.x)", "mmin": f"o_min({a.orc}.x)",
-                   "trace": f"o_trace({a.orc})"}[kind]
+                   "trace": f"o_trace({a.orc})", "mnorm_1": f"o_mnorm1({a.orc})", "mnorm_inf": f"o_mnorminf({a.orc})"}[kind]
             bits = (max(1, n1 * n2) * a.bound).bit_length() + 2 * a.dexp
             ops = a.ops
         if bits > MAXBITS:
@@ -1045,11 +1180,14 @@ class CorpusGen(Gen):
         if h == "unit": return self.mk_unit(int(a[0]), int(a[1]), _num(a[2]))
         if h == "cmat": return self.mk_cmat(int(a[0]), int(a[1]), _num(a[2]))
         if h == "concat": return self.mk_concat(B(a[0]), B(a[1]))
+        if h in ("mv", "mm") and isinstance(a[0], list) and a[0][0] == "tri":
+            return (self.mk_trimv if h == "mv" else self.mk_trimm)(a[0][1], B(a[0][2]), B(a[1]))
         if h == "mv": return self.mk_mv(B(a[0]), B(a[1]))
         if h == "vm": return self.mk_vm(B(a[0]), B(a[1]))
         if h == "sumrows": return self.mk_sumrows(B(a[0]))
         if h == "sumcols": return self.mk_sumcols(B(a[0]))
         if h in ("maxrows", "mincols"): return self.mk_foldrows(h, B(a[0]))
+        if h == "fold": return self.mk_fold(a[0], a[1] == "rows", B(a[2]))
         if h == "outer": return self.mk_outer(B(a[0]), B(a[1]))
         if h == "mm": return self.mk_mm(B(a[0]), B(a[1]))
         if h == "repeat": return self.mk_repeat(B(a[0]), int(a[1]))
